@@ -53,6 +53,10 @@ type Spec struct {
 	Tiers         map[string]TierSpec `json:"tiers"`
 	Covers        []string            `json:"covers"`
 	ReplayRewrite []string            `json:"replay_rewrite"`
+	// SourceRewrite: repo file -> list of [old, new] textual replacements applied to the file's current
+	// content, for the symbolic run (overlay) and the native runs alike (e.g. redirecting time.NewTimer
+	// to a harness-level timer). Every pattern must occur, otherwise the check is inconclusive.
+	SourceRewrite map[string][][2]string `json:"source_rewrite"`
 	Assumptions   []string            `json:"assumptions"`
 	NotCovered    []string            `json:"not_covered"`
 	Stubs         []string            `json:"stubs"`
@@ -390,7 +394,30 @@ func overlayFor(spec *Spec) (map[string][]byte, error) {
 		}
 		ov[filepath.Join(repoDir, virt)] = src
 	}
+	for f := range spec.SourceRewrite {
+		out, err := rewrittenSource(spec, f)
+		if err != nil {
+			return nil, err
+		}
+		ov[filepath.Join(repoDir, f)] = []byte(out)
+	}
 	return ov, nil
+}
+
+// rewrittenSource applies the spec's source_rewrite entries for repo file f to its current content.
+func rewrittenSource(spec *Spec, f string) (string, error) {
+	raw, err := os.ReadFile(filepath.Join(repoDir, f))
+	if err != nil {
+		return "", err
+	}
+	src := string(raw)
+	for _, r := range spec.SourceRewrite[f] {
+		if !strings.Contains(src, r[0]) {
+			return "", fmt.Errorf("source_rewrite: pattern %q does not occur in %s", r[0], f)
+		}
+		src = strings.ReplaceAll(src, r[0], r[1])
+	}
+	return src, nil
 }
 
 func loadEngine(spec *Spec) (*Engine, error) {
@@ -639,11 +666,30 @@ func runNative(spec *Spec, cases []nativeCase) ([]nativeResult, error) {
 	testFile := filepath.Join(tmp, "zz_verif_replay_test.go")
 	os.WriteFile(testFile, []byte(sb.String()), 0o644)
 	replace[filepath.Join(repoDir, strings.TrimPrefix(spec.TestPkg, "./"), "zz_verif_replay_test.go")] = testFile
+	srcRewritten := map[string]string{}
+	srcFiles := make([]string, 0, len(spec.SourceRewrite))
+	for f := range spec.SourceRewrite {
+		srcFiles = append(srcFiles, f)
+	}
+	sort.Strings(srcFiles)
+	for i, f := range srcFiles {
+		out, err := rewrittenSource(spec, f)
+		if err != nil {
+			return nil, err
+		}
+		srcRewritten[f] = out
+		p := filepath.Join(tmp, fmt.Sprintf("srcrewrite%d.go", i))
+		os.WriteFile(p, []byte(out), 0o644)
+		replace[filepath.Join(repoDir, f)] = p
+	}
 	// time.Now() -> verif.Now() in the listed files (native runs only)
 	for i, f := range spec.ReplayRewrite {
 		src, err := os.ReadFile(filepath.Join(repoDir, f))
 		if err != nil {
 			return nil, err
+		}
+		if s, ok := srcRewritten[f]; ok {
+			src = []byte(s)
 		}
 		out, err := rewriteTimeNow(string(src))
 		if err != nil {
